@@ -77,6 +77,9 @@ fn main() {
             "C14" => engine::isolate::child_main(start, end, step, 120, 8 << 30, 16 << 20, move |s, e, ctx, local| {
                 props::c14::child(tier, job, s, e, ctx, local)
             }),
+            "C18" => engine::isolate::child_main(start, end, step, 60, 0, 16 << 20, move |s, e, ctx, local| {
+                props::c18::child(tier, job, s, e, ctx, local)
+            }),
             other => machinery(&format!("no child entry for {other}")),
         }
     }
@@ -97,6 +100,8 @@ fn main() {
         "C14" => c14,
         "C15" => c15,
         "C16" => c16,
+        "C17" => c17,
+        "C18" => c18,
         "C19" => c19,
         "C20" => c20,
     );
